@@ -194,6 +194,7 @@ LIB_METHODS = {
     ('vec_size', 'erase'): ('vec_size_erase', ()),
     ('weak_ptr_size', 'expired'): ('weak_ptr_size_expired', ()),
     ('shared_ptr_size', 'use_count'): ('shared_ptr_size_use_count', ()),
+    ('shared_ptr_size', 'reset'): ('shared_ptr_size_reset', ()),
     ('unique_ptr_MCSLock', 'release'): ('unique_ptr_MCSLock_release', ()),
     ('unique_ptr_MCSLock', 'reset'): ('unique_ptr_MCSLock_reset', ()),
 }
@@ -232,6 +233,15 @@ class TU:
     def __init__(self, src, incs, defs, symbolic=(), extra_flags=()):
         self.src = src
         self.symbolic = set(symbolic)   # names of constants kept symbolic
+        # a symbolic constant may be given as NAME=VALUE: VALUE is the distinctive number the build-time macro was set to,
+        # so that array bounds clang already evaluated ([VALUE]) are recognised as that symbolic constant
+        self.symbolic_values = {}
+        for sname in list(self.symbolic):
+            if '=' in sname:
+                nm, val = sname.split('=', 1)
+                self.symbolic.discard(sname)
+                self.symbolic.add(nm)
+                self.symbolic_values[val] = nm
         self.docs = clang_dump(src, 'dbgroup', incs, defs, extra_flags)
         self.anon = clang_dump(src, '(anonymous namespace)', incs, defs, extra_flags)
         self.types = Types()
@@ -428,7 +438,8 @@ class TU:
         elif k == 'CXXConversionDecl':
             kind, base = 'method', cident(OPNAMES.get(name, name))
         elif k == 'CXXMethodDecl':
-            kind = 'static' if n.get('storageClass') == 'static' else 'method'
+            decl = self.by_id.get(n.get('previousDecl'), {}) if 'previousDecl' in n else {}
+            kind = 'static' if (n.get('storageClass') == 'static' or decl.get('storageClass') == 'static') else 'method'
             base = cident(OPNAMES.get(name, name))
         else:
             kind, base = 'free', cident(name)
@@ -549,7 +560,7 @@ class Emitter:
                     qt = c['type']['qualType']
                     m = re.match(r'^(.*)\[(\w+)\]$', qt)
                     if m:
-                        bound = m.group(2)
+                        bound = self.tu.symbolic_values.get(m.group(2), m.group(2))
                         if bound in self.tu.symbolic:
                             fields.append('  %s *%s; /* array[%s], symbolic bound */' % (self.T.c(m.group(1), c), c['name'], bound))
                         else:
@@ -708,7 +719,7 @@ class Emitter:
         m = re.match(r'^(.*)\[(\w+)\]$', qt)
         if m:
             ct = self.T.c(m.group(1), fld)
-            self.w('%s = verif_new_array_%s(%s); /* value-initialised array member */' % (lhs, ct, m.group(2)), ind)
+            self.w('%s = verif_new_array_%s(%s); /* value-initialised array member */' % (lhs, ct, self.tu.symbolic_values.get(m.group(2), m.group(2))), ind)
             return
         ct = self.ctype(fld)
         if ct in ('vec_double', 'vec_size', 'weak_ptr_size', 'shared_ptr_size', 'arr_double_100', 'arr_vec_size_256', 'unique_ptr_MCSLock'):
@@ -831,12 +842,11 @@ class Emitter:
             self.loop_no += 1
             self.stat('loops')
             self.w('do', ind)
-            self.block(parts[0], ind)
-            # the condition may contain calls; print it first so ordinals stay in source order
-            c = self.cond(parts[1])
-            self.w('while (%s)' % c, ind)
+            # CBMC syntax: the loop contract of a do-while stands between `do` and the body
             self.w('/*@LOOP %s %d*/' % (self.cur.cname, no), ind)
-            self.w(';', ind)
+            self.block(parts[0], ind)
+            c = self.cond(parts[1])
+            self.w('while (%s);' % c, ind)
         elif k == 'ForStmt':
             init, _var, cnd, inc, body = s['inner']
             no = self.loop_no
@@ -1530,8 +1540,9 @@ def extract(src, incs, defs, symbolic=(), extra_flags=(), only_main_and_headers=
         m = re.match(r'^(.*)\[(\w+)\]$', qt)
         if m:
             ct = tu.types.c(m.group(1), n)
-            if m.group(2) in tu.symbolic:
-                glob_lines.append('%s *%s; /* array[%s] with symbolic bound: block provided by the harness */' % (ct, g, m.group(2)))
+            bname = tu.symbolic_values.get(m.group(2), m.group(2))
+            if bname in tu.symbolic:
+                glob_lines.append('%s *%s; /* array[%s] with symbolic bound: block provided by the harness */' % (ct, g, bname))
             else:
                 glob_lines.append('%s %s[%s];' % (ct, g, m.group(2)))
         else:
